@@ -43,12 +43,12 @@ WireMatches(w, v) ==
 
 Conf(e) ==
   LET o == OptionsOf(e.cfg) IN
-  /\ Rep("local", ObsMatches(Local(o), e.local))
+  /\ Rep("local", ObsMatches(IF e.path = "child" THEN LocalChild(o) ELSE Local(o), e.local))
   /\ e.err = "" =>
-       IF e.path = "relocate"
-       THEN /\ Rep("wire", WireMatches(ToSerialize(Local(o)), e.wire))
-            /\ Rep("relocated", ObsMatches(Relocated(o), e.copy))
-       ELSE Rep("remote", ObsMatches(Remote(o), e.copy))
+       CASE e.path = "relocate" -> /\ Rep("wire", WireMatches(ToSerialize(Local(o)), e.wire))
+                                   /\ Rep("relocated", ObsMatches(Relocated(o), e.copy))
+         [] e.path = "remote"   -> Rep("remote", ObsMatches(Remote(o), e.copy))
+         [] e.path = "child"    -> Rep("child", ObsMatches(RemoteChild(o), e.copy))
 
 Init == l = 1
 Step == /\ l <= Len(Trace)
